@@ -70,6 +70,11 @@ CLAIMED = {
     note="Trusted: Coq kernel; stdlib real axioms; numpy/scipy exp, log, lgamma as leaves; scipy.stats as the reference; lognormal/Schulz generated with relative widths only.",
     technique="Coq proof (sortedness of linspace, exp/ln identities over R) + two-pass vm_compute correspondence + scipy.stats oracle",
     design="DESIGN.md §3 C02"),
+ "C19": dict(
+    text="PARTIAL. Coq theorems over the reals: the returned value equals (1/2pi) sum_i [m_i J0(q_i xi) - 1] I_i q_i dq_i with m the acceptance mask (q lambda/2pi <= 1 and q <= zaccept), it is linear in I(q) (scaling and addition), and a grid exp(a + i d), d > 0, is positive and strictly increasing. Not carried by a theorem: the quadrature accuracy for Gaussian Hankel pairs and the single-point vs vector tolerance. Tied to the code by evaluating the Coq binary64 model (J0 supplied as a leaf) against SesansTransform.apply on intensities supported on random grid points, and by an oracle on the implementation: q_calc positive/increasing, linearity, unit intensities just inside and outside the acceptance, Gaussian and sum-of-Gaussian pairs against the closed form (1e-3), single-point data sets (10%).",
+    note="Trusted: Coq kernel; stdlib real axioms; scipy.special.j0 and numpy exp/log as leaves; harness/c19.py.",
+    technique="Coq proof (linearity and value formula over R) + sparse-intensity correspondence + Hankel-pair oracle",
+    design="DESIGN.md §3 C19"),
 }
 NA_REASON = "check not built yet in this session (planned, see DESIGN.md §7)"
 
